@@ -299,8 +299,14 @@ func (k Keeper) ComputeConsumerNextValSet(
 		}
 	}
 
-	// need to use the bondedValidators, not activeValidators, here since the chain might be opt-in and allow inactive vals
-	nextValidators, err := k.ComputeNextValidators(ctx, consumerId, bondedValidators, powerShapingParameters, minPower)
+	// need to use the bondedValidators, not activeValidators, here since the chain might be opt-in and allow inactive vals;
+	// if inactive validators are not allowed, only the provider's active validators are candidates (ComputeNextValidators
+	// orders its candidates by tokens, which does not identify the active set when voting powers are tied)
+	candidateValidators := bondedValidators
+	if !powerShapingParameters.AllowInactiveVals {
+		candidateValidators = activeValidators
+	}
+	nextValidators, err := k.ComputeNextValidators(ctx, consumerId, candidateValidators, powerShapingParameters, minPower)
 	if err != nil {
 		return []abci.ValidatorUpdate{},
 			fmt.Errorf("computing next validators, consumerId(%s), minPower(%d): %w", consumerId, minPower, err)
